@@ -21,7 +21,7 @@ TIERS = {
 FAULT_KINDS = []
 PROBES = ["unset_strict", "unset_nonstrict", "secret_planted_and_unset_read", "quoted_reserved_name", "digit_initial_name", "non_ascii_value",
           "newline_value", "empty_value", "field_named_env", "let_env", "read_in_library", "empty_environment", "var_named_env",
-          "env_passed_as_value", "tiny_environment", "failing_file_built_first", "let_env_variant"]
+          "env_passed_as_value", "tiny_environment", "failing_file_built_first", "let_env_variant", "reached_by_recursive_walk", "wellknown_name"]
 PROBES_OPTIONAL = False
 RESERVED = ["let", "import", "self", "mod", "out", "assert", "true", "false", "NULL", "select", "func", "module", "map", "filter", "reduce",
             "include", "fail", "not", "in", "is", "as", "env", "convert", "constraint", "TRACE"]
@@ -72,7 +72,7 @@ def make_value(rng, cls, tok):
 
 def make_name(rng, used):
     for _ in range(50):
-        kind = rng.weighted([("upper", 6), ("mixed", 3), ("lower", 2), ("underscore", 1), ("digit", 1), ("reserved", 1), ("single", 1)])
+        kind = rng.weighted([("upper", 6), ("mixed", 3), ("lower", 2), ("underscore", 1), ("digit", 1), ("reserved", 1), ("single", 1), ("wellknown", 2)])
         if kind == "upper":
             n = "".join(rng.choice("ABCDEFGHIJKLMNOPQRSTUVWXYZ_") for _ in range(rng.between(2, 10)))
             if n[0] == "_" and rng.chance(50):
@@ -87,6 +87,9 @@ def make_name(rng, used):
             n = rng.choice("0123456789") + rng.token(3).upper()
         elif kind == "reserved":
             n = rng.choice(RESERVED)
+        elif kind == "wellknown":
+            # variables the compiler, its libraries or the shell give a meaning to; for `env` they are variables like any other
+            n = rng.choice(["UCG_IMPORT_PATH", "PATH", "USER", "PWD", "OLDPWD", "XDG_CACHE_HOME", "TERM", "LANG", "LC_ALL", "RUST_LOG", "TMPDIR", "SHELL", "EDITOR", "NO_COLOR"])
         else:
             n = rng.choice("abcxyzABCXYZ_")
         if n not in used and n != "HOME":
@@ -156,6 +159,8 @@ def generate(rng, tier, idx):
             "let_env": rng.choice(LET_ENV_FORMS) if rng.chance(25) else None,
             # history dimension: another file of the same invocation failed before this one is built
             "pre_fail": rng.choice(PRE_FAILS) if rng.chance(20) else None,
+            # how the file is reached: named on the command line, or found by a recursive directory walk one level down
+            "walk": rng.chance(15),
             "field_uid": "fld" + rng.token(8)}
 
 
@@ -242,7 +247,26 @@ def execute(world, sb, res):
         res.probe("read_in_library")
     flags = [] if world["strict"] else ["--no-strict"]
     pre = world.get("pre_fail")
-    if pre:
+    walk = world.get("walk") and not pre
+    if walk:
+        # the same two files live one directory level down and are found by `ucg build -r` started from the parent
+        import shutil
+        shutil.move(sb.p("proj"), sb.p("proj_inner"))
+        sb.mkdir("proj")
+        shutil.move(sb.p("proj_inner"), sb.p("proj/sub"))
+        res.probe("reached_by_recursive_walk")
+        inv = sb.invoke(flags + ["build", "-r"], cwd="proj", env=envmap)
+        cut = inv.out.find("/main.ucg")
+        cut = inv.out.rfind("Building ", 0, cut) if cut >= 0 else -1
+        if cut < 0:
+            res.violate("C18.not-built", "walk", "the recursive walk did not build sub/main.ucg\n%s" % inv.out[-800:])
+            return
+        seg = inv.out[cut:]
+        nxt = seg.find("\nBuilding ", 1)
+        out = seg[:nxt] if nxt >= 0 else seg
+        status = 1 if [l for l in out.split("\n")[1:] if l.strip()] else 0
+        art_dir = "proj/sub"
+    elif pre:
         sb.write("proj/pre.ucg", PRE_FAIL_SRC[pre])
         res.probe("failing_file_built_first")
         inv = sb.invoke(flags + ["build", "pre.ucg", "main.ucg"], cwd="proj", env=envmap)
@@ -258,10 +282,12 @@ def execute(world, sb, res):
         inv = sb.invoke(flags + ["build", "main.ucg"], cwd="proj", env=envmap)
         out = inv.out
         status = inv.status
+    if not walk:
+        art_dir = "proj"
     art = None
-    if sb.exists("proj/main.json"):
+    if sb.exists(art_dir + "/main.json"):
         try:
-            art = json.loads(sb.read("proj/main.json").decode("utf-8"))
+            art = json.loads(sb.read(art_dir + "/main.json").decode("utf-8"))
         except Exception:
             art = "undecodable"
     res.history.append({"argv": inv.argv, "env_names": sorted(envmap), "status": inv.status, "main_status": status, "signal": inv.signal, "out": out, "artifact": art})
@@ -290,6 +316,8 @@ def execute(world, sb, res):
         res.key([r["pos"], r["set"], world["strict"], cls, name_class(r["name"])], nontrivial)
         if name_class(r["name"]) == "reserved":
             res.probe("quoted_reserved_name")
+        if r["name"] in ("UCG_IMPORT_PATH", "PATH", "USER", "PWD", "OLDPWD", "XDG_CACHE_HOME", "TERM", "LANG", "LC_ALL", "RUST_LOG", "TMPDIR", "SHELL", "EDITOR", "NO_COLOR"):
+            res.probe("wellknown_name")
         if name_class(r["name"]) == "digit-initial":
             res.probe("digit_initial_name")
         if cls in ("bmp", "astral", "combining", "rtl", "long"):
@@ -381,6 +409,8 @@ def shrink_candidates(world):
         yield dict(w, let_env=None)
     if w.get("pre_fail"):
         yield dict(w, pre_fail=None)
+    if w.get("walk"):
+        yield dict(w, walk=False)
     for i, r in enumerate(w["reads"]):
         if r["pos"] not in ("top", "quoted"):
             yield dict(w, reads=w["reads"][:i] + [dict(r, pos="quoted" if needs_quote(r["name"]) else "top")] + w["reads"][i + 1:])
